@@ -618,7 +618,11 @@ func (flattenEngine) c04fail(res *runner.Result, run *flatRun, o string) {
 	case run.Panic != nil:
 		res.Violate("panic", "panic:"+run.Panic.Site()+":"+runner.MsgClass(run.Panic.Msg), o, "Flatten panicked: "+run.Panic.Msg+"\n"+run.Panic.Stack)
 	default:
-		res.Violate("flatten-error", "flatten-error:"+mode+":"+runner.MsgClass(run.Err.Error()), o, "Flatten rejected a well-formed bundle: "+run.Err.Error())
+		sig := "flatten-error:" + mode + ":" + runner.MsgClass(run.Err.Error())
+		if strings.Contains(run.Err.Error(), "OAIGen") {
+			sig += ":oaigen" // the failing key or name belongs to a deduplicated (OAIGen) definition
+		}
+		res.Violate("flatten-error", sig, o, "Flatten rejected a well-formed bundle: "+run.Err.Error())
 	}
 }
 
